@@ -24,7 +24,10 @@ def replay_one(task):
     cls = _cls()[d]
     if outcome_of(lambda: cls.check_schema(S))[0] != "ok":
         return [("not_accepted", None, None, None)]
-    v = cls(S)
+    r = outcome_of(lambda: cls(S))
+    if r[0] != "ok":
+        return [("raises", None, r[1:], None)]
+    v = r[1]
     out = []
     for i, x in enumerate(exp):
         if x["ood"]:
